@@ -219,6 +219,29 @@ class Include(PyContract):
 INCLUDE = Include()
 
 
+class IncludeConflict(PyContract):
+    """an integer constant that both FFIs declare with different values is refused, not silently kept or replaced"""
+    name = 'cparser:Parser.include#conflicting-constant'
+    function = 'Parser.include'
+    allowed = ('FFIError',)
+
+    def setup(self, ex):
+        self.v1, self.v2 = z3.Int('v_other'), z3.Int('v_self')
+        self.other = _parser({}, consts={'K': SV(self.v1, 'int')})
+        self.this = _parser({}, consts={'K': SV(self.v2, 'int')})
+        return {'self': self.this, 'other': self.other}, []
+
+    def post(self, ex, args, kind, value, st):
+        if kind == 'raise':
+            return [('FFIError only when the two values differ', self.v1 != self.v2)]
+        c = st.env['self'].attrs['_int_constants']
+        return [('accepted only when the two values are equal', self.v1 == self.v2),
+                ('and the value stays', term(c['K']) == self.v2 if is_sym(c.get('K')) else z3.BoolVal(False))]
+
+
+INCLUDE_CONFLICT = IncludeConflict()
+
+
 def items():
     out = []
     for con in DECLARE + CONSTS:
@@ -226,4 +249,6 @@ def items():
         out.append(('src/cffi/cparser.py', R, con.function, con))
     R.contracts[INCLUDE.name] = INCLUDE
     out.append(('src/cffi/cparser.py', R, 'Parser.include', INCLUDE))
+    R.contracts[INCLUDE_CONFLICT.name] = INCLUDE_CONFLICT
+    out.append(('src/cffi/cparser.py', R, 'Parser.include', INCLUDE_CONFLICT))
     return out
